@@ -24,15 +24,15 @@ RULE = (
 )
 ASSUMPTIONS = ["step > 0, start <= stop, finite", "lookups are made on strictly increasing coordinate arrays"]
 
-STARTS = [0.0, 0.0, 0.1, 1.0, 3.7, 100.3, 1000.1, -0.4, -2.7, 3600.0]
-STEPS = [1.0, 0.5, 2.5, 7.0, 0.1, 0.01, 1 / 3, 1 / 44100, 1 / 22050, 1 / 256000, 0.25, 0.7]
+STARTS = [0.0, 0.0, 0.1, 1.0, 3.7, 100.3, 1000.1, -0.4, -2.7, 3600.0, 60.0, 86400.0]
+STEPS = [1.0, 0.5, 2.5, 7.0, 0.1, 0.01, 1 / 3, 1 / 44100, 1 / 22050, 1 / 256000, 0.25, 0.7, 1 / 96000, 1 / 250000, 1 / 384000]
 
 
 @st.composite
 def range_case(draw):
     start = draw(st.one_of(st.sampled_from(STARTS), st.floats(-100.0, 5000.0, allow_nan=False)))
     step = draw(st.one_of(st.sampled_from(STEPS), st.sampled_from(STEPS), st.floats(1e-3, 10.0, allow_nan=False)))
-    n = draw(st.one_of(st.integers(0, 40), st.integers(0, 3000)))
+    n = draw(st.one_of(st.integers(0, 40), st.integers(0, 3000), st.integers(0, 3000), st.sampled_from([10000, 50000, 123456, 300000])))
     whole = draw(st.sampled_from([True, True, False]))
     phi = 0.0 if whole else draw(st.sampled_from([0.1, 0.25, 0.5, 0.75, 0.9]))
     ctor = draw(st.sampled_from(["range_dim", "time_step", "time_samplerate", "frequency", "range_dim_size"]))
@@ -64,7 +64,8 @@ def check_range(spec, ctx):
         raise ValueError("malformed spec")
     stop = start + (n + phi) * step
     ratio = (stop - start) / step
-    whole = phi == 0 and ratio == n
+    # "a whole number": stop was built as start + n*step, so (stop-start)/step equals n up to float noise
+    whole = phi == 0 and abs(ratio - n) <= 1e-6
     if spec["ctor"] == "range_dim_size" and phi == 0 and n >= 1:
         eff_step = (stop - start) / n
     elif spec["ctor"] == "time_samplerate":
@@ -81,7 +82,7 @@ def check_range(spec, ctx):
         ctx.fail(f"{spec['ctor']}(start={start}, stop={stop}, step={eff_step}): {coords.size} coordinates, (stop-start)/step = {n} exactly", spec, int(coords.size), n, kind="count")
     if not whole:
         lo, hi = math.floor(ratio + 1e-9), math.ceil(ratio - 1e-9)
-        if not (min(lo, n) <= coords.size <= max(hi, n + 1)):
+        if not (min(lo, n) <= coords.size <= max(hi, n + (1 if phi > 0 else 0))):
             ctx.fail(f"{coords.size} coordinates for ratio {ratio}", spec, int(coords.size), [lo, hi], kind="count")
     if coords.size:
         # numpy.arange computes start + i*delta with delta = (start + step) - start, i.e. the step rounded to the
@@ -192,7 +193,8 @@ def setval_case(draw):
     qidx = [draw(st.integers(0, shape[d] - 1)) for d in qdims]
     fr = [draw(st.sampled_from([0.0, 0.0, 0.3, 0.9])) for _ in qdims]
     vector = draw(st.booleans())
-    return {"shape": shape, "steps": steps, "starts": starts, "qdims": qdims, "qidx": qidx, "fr": fr, "vector": vector, "value": draw(st.integers(-9, 9)), "order": draw(st.permutations(list(range(nq))))}
+    return {"shape": shape, "steps": steps, "starts": starts, "qdims": qdims, "qidx": qidx, "fr": fr, "vector": vector, "value": draw(st.integers(-9, 9)), "order": draw(st.permutations(list(range(nq)))),
+            "layout": draw(st.sampled_from(["plain", "plain", "coords_reversed", "scalar_coord_first", "transposed", "leading_dim_without_coord"]))}
 
 
 def check_setval(spec, ctx):
@@ -202,7 +204,18 @@ def check_setval(spec, ctx):
     names = ["time", "frequency", "channel"][: len(spec["shape"])]
     coords = {nm: np.array([s + i * st_ for i in range(n)]) for nm, s, st_, n in zip(names, spec["starts"], spec["steps"], spec["shape"])}
     data = np.arange(int(np.prod(spec["shape"])), dtype=float).reshape(spec["shape"]) + 100
-    arr = xr.DataArray(data.copy(), dims=names, coords=coords)
+    layout = spec.get("layout", "plain")
+    if layout == "coords_reversed":
+        arr = xr.DataArray(data.copy(), dims=names, coords={k: coords[k] for k in reversed(list(coords))})
+    elif layout == "scalar_coord_first":
+        arr = xr.DataArray(data.copy(), dims=names, coords={"recording": "r1", **coords})
+    elif layout == "transposed":
+        arr = xr.DataArray(data.copy(), dims=names, coords=coords).transpose(*reversed(names))
+        arr = arr.copy()
+    elif layout == "leading_dim_without_coord":
+        arr = xr.DataArray(np.stack([data.copy(), data.copy() + 1000]), dims=["batch"] + names, coords=coords)
+    else:
+        arr = xr.DataArray(data.copy(), dims=names, coords=coords)
     expected = data.copy()
     indexer = [slice(None)] * len(names)
     query = {}
@@ -220,7 +233,14 @@ def check_setval(spec, ctx):
     expected[tuple(indexer)] = value
     ctx.case(spec, nontrivial=len(names) >= 2, labels=[f"ndim={len(names)}", f"nq={len(query)}", "vector" if isinstance(value, list) else "scalar"])
     out = ctx.call(spec, f"set_value_at_pos({query})", arrays.set_value_at_pos, arr, value, **query)
-    got = np.asarray(out.data)
+    if layout == "transposed":
+        got = np.asarray(out.transpose(*names).data)
+    elif layout == "leading_dim_without_coord":
+        exp_b = np.stack([data.copy(), data.copy() + 1000])
+        exp_b[(slice(None),) + tuple(indexer)] = value
+        got, expected = np.asarray(out.data), exp_b
+    else:
+        got = np.asarray(out.data)
     if got.shape != expected.shape or not np.array_equal(got, expected):
         ctx.fail(f"set_value_at_pos({query}, value={value}) wrote other cells than index {indexer}", spec, got.tolist(), expected.tolist(), kind="cells")
     for nm in names:
